@@ -8,8 +8,8 @@
 (* below do, for every size of a ladder, and the INSERTION ORDER is part   *)
 (* of the case (the same set is emitted in several orders):                *)
 (*                                                                         *)
-(*  ring    n lattice points within a unit or two of a circle (full turn   *)
-(*          or an arc of it), plus one point inside the circle: every      *)
+(*  ring    about n lattice points within a tenth of a unit of a circle    *)
+(*          (full turn or an arc), plus one point inside the circle: every *)
 (*          triangle of the ring has (nearly) that circle as circumcircle, *)
 (*          so inserting the inner point AFTER the ring invalidates about  *)
 (*          n - 2 triangles at once (cavity of n - 2, fan of n); inserted  *)
@@ -64,6 +64,10 @@ Cos(k) == LET m == k % 64
 Sin(k) == Cos(k + 48)
 Rnd(v) == (v + 512) \div 1024
 Polar(cx, cy, r, d) == <<cx + Rnd(r * Cos(d)), cy + Rnd(r * Sin(d))>>
+\* the same around a centre that is off the lattice by (fx, fy) / 1024: rounding then differs on opposite sides, so
+\* the ring has no mirror symmetry (a symmetric ring is full of exactly co-circular quadruples) and stays within
+\* half a unit of the circle
+PolarF(cx, cy, fx, fy, r, d) == <<cx + Rnd(r * Cos(d) + fx), cy + Rnd(r * Sin(d) + fy)>>
 
 \* p keeps P in general position in the metric stretched by sqrt(u), sqrt(v)
 Keeps(P, p, u, v) ==
@@ -79,20 +83,35 @@ First(acc, alts, j, u, v) ==
     ELSE First(acc, alts, j + 1, u, v)
 
 \* cands: a sequence of sequences of alternatives; a candidate without an admissible alternative is dropped
-RECURSIVE Take(_, _, _, _, _)
-Take(acc, cands, k, u, v) ==
-    IF k > Len(cands) THEN acc
-    ELSE Take(acc \o First(acc, cands[k], 1, u, v), cands, k + 1, u, v)
+\* (FoldLeft is evaluated iteratively by TLC: a recursive operator overflows the stack on long candidate lists)
+Take(acc0, cands, k0, u, v) == FoldLeft(LAMBDA acc, alts : acc \o First(acc, alts, 1, u, v), acc0, cands)
 
 Around(p) == <<p, <<p[1] + 1, p[2]>>, <<p[1], p[2] + 1>>, <<p[1] - 1, p[2]>>, <<p[1], p[2] - 1>>, <<p[1] + 1, p[2] + 1>>>>
 
 (* ------------------------------ the shapes ------------------------------ *)
-\* ring of n points over `span` of the 64 directions starting at d0, radius r around the middle of the lattice
+\* Ring of about n points over `span` of the 64 directions starting at d0, radius r: the lattice points CLOSEST to the
+\* circle.  The centre is off the lattice by (fx, fy) / 15 (no mirror symmetry: a symmetric ring is full of exactly
+\* co-circular quadruples); distances are squared and scaled by 15.  A lattice point is taken when its squared distance
+\* differs from r^2 by at most W: the annulus has area 2 pi W, so W = n * 10 / 48 gives about 1.3 n points, each within
+\* W / (2 r) of the circle (0.1 of a unit for 40 points at radius 45 - five times closer than rounding a regular
+\* polygon to the lattice, whose sagitta between neighbours would be below the rounding error).  Every third case is a
+\* loose ring (4 W).  Candidates come in lexicographic order of (x, y): a sweep, not a walk around the circle.
+Abs(x) == IF x < 0 THEN -x ELSE x
+RingSet(id, n, r, d0, span) ==
+    LET cx == 750 + (Hash(id, 503) % 15)
+        cy == 750 + (Hash(id, 504) % 15)
+        W == ((225 * n * 10) \div 48) * (IF Hash(id, 505) % 3 = 0 THEN 4 ELSE 1)
+        dm == d0 + span \div 2
+        lo == 50 - r - 2
+        hi == 50 + r + 3
+    IN {p \in (lo..hi) \X (lo..hi) :
+          /\ Abs((15 * p[1] - cx) * (15 * p[1] - cx) + (15 * p[2] - cy) * (15 * p[2] - cy) - 225 * r * r) <= W
+          /\ span = 64 \/ (p[1] - 50) * Cos(dm) + (p[2] - 50) * Sin(dm) >= r * Cos(span \div 2)}
+\* at most 72 candidates (every st-th one of a longer list): the general-position filter is quartic in their number
 RingCands(id, n, r, d0, span) ==
-    [k \in 1..n |->
-        LET d == d0 + ((k - 1) * span) \div n
-            rr == r + Jit(id, k, 1)
-        IN <<Polar(50, 50, rr, d), Polar(50, 50, rr + 1, d), Polar(50, 50, rr - 1, d), Polar(50, 50, rr + 2, d)>>]
+    LET q == SetToSeq(RingSet(id, n, r, d0, span))
+        st == (Len(q) + 71) \div 72
+    IN [k \in 1..(Len(q) \div st) |-> <<q[k * st]>>]
 \* the inner point: near the centre for a full turn, half way to the middle of an arc
 Inner(id, r, d0, span) ==
     LET q == IF span = 64 THEN <<50 + Jit(id, 501, r \div 4), 50 + Jit(id, 502, r \div 4)>>
